@@ -386,7 +386,7 @@ class DeclareImplicitArraysVisitor(BasicConstructVisitor):
                 ],
                 initialize_vars=self._initialize_vars,
             )
-            for var in self.implicitly_declared_arrays
+            for var in sorted(self.implicitly_declared_arrays)
         ]
 
 
